@@ -241,15 +241,31 @@ def run(chk, prog):
     fa = prog.fn("vfps::FokkerPlanckMap::apply", nparams=0)
     chk.used(fa)
     s = I.scan(fa)
-    h = [a for a in s.accesses if a.kind == "load" and a.base == "_hinfo"]
-    din = [a for a in s.accesses if a.kind == "load" and a.base == "data_in"]
+    def uniq(acc):
+        out = []
+        for a_ in acc:
+            if not any(o.idx == a_.idx for o in out):
+                out.append(a_)
+        return out
+    h = uniq([a for a in s.accesses if a.kind == "load" and a.base == "_hinfo" and a.idx is not None])
+    din = uniq([a for a in s.accesses if a.kind == "load" and a.base == "data_in" and a.idx is not None])
     dout = [a for a in s.accesses if a.kind == "store" and a.base == "data_out" and a.idx is not None]
-    A.require(len(h) == 1 and len(din) == 1 and len(dout) == 1, "FokkerPlanckMap::apply: accesses not found")
+    A.require(len(h) == 1 and len(din) == 1 and len(dout) == 1, "FokkerPlanckMap::apply: accesses not found (%d table reads, %d grid reads, %d grid writes)" % (len(h), len(din), len(dout)))
     h, din, dout = h[0], din[0], dout[0]
-    lv = {L.name: L for L in dout.loops}
+    # the three cell loops by what they do to the destination index, not by what they are called: stride N*N = bunch, N = column (x), 1 = energy row (y)
+    fsz0 = {sp.Symbol("_meshxsize", real=True): S.N, sp.Symbol("_ysize", real=True): S.N}
+    D0 = sp.expand(S.norm(dout.idx[0]).subs(fsz0))
+    lv = {}
+    for L in dout.loops:
+        if L.sym is None:
+            continue
+        c_ = sp.expand(D0.coeff(L.sym, 1))
+        for role, stride in (("n", S.N ** 2), ("x", S.N), ("y", sp.Integer(1))):
+            if sp.expand(c_ - stride) == 0:
+                lv[role] = L
     A.require({"n", "x", "y"} <= set(lv), "FokkerPlanckMap::apply: loops n,x,y not found")
     y = lv["y"].sym
-    jl = [L for L in h.loops if L.name not in ("n", "x", "y")]
+    jl = [L for L in h.loops if all(L is not lv[r_] for r_ in "nxy")]
     A.require(len(jl) == 1, "FokkerPlanckMap::apply: stencil loop not found")
     chk.check(sp.expand(h.idx[0] - (y * sp.Symbol("_ip", real=True) + jl[0].sym)) == 0, "R5", A.loc(fa, {"line": h.line}),
               "stencil entry read is _hinfo[y*_ip+j]: depends on the energy row only (%s)" % h.idx[0], "FP::apply:hinfo:%s" % h.idx[0])
